@@ -8,6 +8,7 @@ import PflDrv.Regex
 import PflDrv.Feature
 import PflDrv.Label
 import PflDrv.Nx
+import PflDrv.Text
 open Lean PflDrv
 
 def dispatch (j : Json) : R Json := do
@@ -21,6 +22,7 @@ def dispatch (j : Json) : R Json := do
   else if op.startsWith "fs." then fsHandle op j
   else if op.startsWith "lab." then labHandle op j
   else if op.startsWith "nx." then nxHandle op j
+  else if op.startsWith "txt." then txtHandle op j
   else if op == "ping" then pure (Json.str "pong")
   else throw s!"unknown op {op}"
 
